@@ -45,7 +45,7 @@ fn bj(b: &Universal2DBox) -> serde_json::Value {
 
 pub fn run(tier: Tier) -> Report {
     let rep = Report::new("C15", tier);
-    rep.set_rule("all unordered sets of <= 3 integer-cornered boxes on a 5-point lattice and of 4 on a 4-point lattice (thorough: also 3 on a 6-point lattice) against exact cell counting, all 6 orderings of each 3-set; sets of 3-4 boxes of very different sizes (unit boxes and boxes 7..12 cells long on a 12-cell lattice), exact as well; enumerated near-degenerate families (identical, shared / collinear edges, right-angle rotations, the angle menu of C08, 1..8 boxes; a rotated box across / inside an axis-aligned one (360 pairs); crowds of 9..40 boxes - pairs, chains, an isolated row with a covered / overlapped tail - in the given order and rotated) against inclusion-exclusion with an independent convex clipper; every ordered set of 2-3 boxes of a 4-box rotated menu x 6 preparations per box (polygon generated, then moved / turned / resized in place, with and without generating it again). Non-trivial = at least two boxes overlap.");
+    rep.set_rule("all unordered sets of <= 3 integer-cornered boxes on a 5-point lattice and of 4 on a 4-point lattice (thorough: also 3 on a 6-point lattice) against exact cell counting, all 6 orderings of each 3-set; sets of 3-4 boxes of very different sizes (unit boxes and boxes 7..12 cells long on a 12-cell lattice), exact as well; enumerated near-degenerate families (identical, shared / collinear edges, right-angle rotations, the angle menu of C08, 1..8 boxes; a rotated box across / inside an axis-aligned one (360 pairs); crowds of 9..40 boxes - pairs, chains, an isolated row with a covered / overlapped tail - in the given order and rotated) against inclusion-exclusion with an independent convex clipper; every ordered set of 2-3 boxes of a 4-box rotated menu x 6 preparations per box (polygon generated, then moved / turned / resized in place, with and without generating it again); the shares as VisualSort / BatchVisualSort store them with the detections (own-area threshold on; three sets of 2-4 boxes as scenes 0-2 in every assignment, 1-3 scenes per batch). Non-trivial = at least two boxes overlap.");
     rep.assume("exact integer cell counting / engine/src/geom.rs inclusion-exclusion; the crate's share is own/(area+1e-5), compared with tolerance 2e-5 + 1e-5/area");
     let evals = AtomicU64::new(0);
     let nontrivial = AtomicU64::new(0);
@@ -375,6 +375,89 @@ pub fn run(tier: Tier) -> Report {
         }
         evals.fetch_add(n, Ordering::Relaxed);
         rep.extra("prepared_then_changed_sets", json!(n));
+    }
+    // the shares as VisualSORT computes and stores them (own-area thresholds configured): the share kept with the newest
+    // observation of every track is that of ITS box among the boxes of ITS frame - simple tracker frame by frame,
+    // batch tracker with two and three scenes of different sets (and sizes) in one batch, every assignment of sets to scenes
+    {
+        use super::trk::*;
+        use crate::sched::{in_shuttle, Guarded};
+        let sets: Vec<Vec<(i32, i32, i32, i32)>> = vec![
+            vec![(0, 0, 10, 10), (5, 0, 15, 10)],
+            vec![(0, 0, 10, 10), (30, 0, 40, 10), (60, 0, 70, 10)],
+            vec![(0, 0, 20, 20), (5, 5, 10, 10), (40, 0, 50, 10), (45, 0, 55, 10)],
+        ];
+        let expected: Vec<Vec<f64>> = sets.iter().map(|b| (0..b.len()).map(|i| exact_share(b, i, 80)).collect()).collect();
+        let mut n = 0u64;
+        for kind in [Kind::VisualSort, Kind::BatchVisualSort] {
+            for perm in super::hung::permutations(3) {
+                for scenes_in_batch in [1usize, 2, 3] {
+                    if kind == Kind::VisualSort && scenes_in_batch > 1 {
+                        continue;
+                    }
+                    let (sets2, exp2, perm2) = (sets.clone(), expected.clone(), perm.clone());
+                    n += 1;
+                    let r = in_shuttle(move || {
+                        let mut cfg = TrkCfg::new(kind);
+                        cfg.vis.own_use = 0.01;
+                        cfg.voting_shards = 2;
+                        let mut t = Guarded::new(AnyTrk::new(&cfg));
+                        let mut bad: Vec<String> = vec![];
+                        // scene k carries set perm[k]
+                        let frame = |set: usize| -> Vec<Det> {
+                            sets2[set].iter().enumerate().map(|(i, b)| {
+                                let mut f = vec![0.0f32; 8];
+                                f[i % 8] = 1.0;
+                                Det::ltwh(b.0 as f32, b.1 as f32, (b.2 - b.0) as f32, (b.3 - b.1) as f32).feat(&f, 0.9)
+                            }).collect()
+                        };
+                        let mut results: Vec<(u64, Vec<Rec>)> = vec![];
+                        if kind == Kind::VisualSort {
+                            for k in 0..3usize {
+                                results.push((k as u64, t.predict(k as u64, &frame(perm2[k]))));
+                            }
+                        } else {
+                            let mut k = 0usize;
+                            while k < 3 {
+                                let batch: Vec<(u64, Vec<Det>)> = (k..(k + scenes_in_batch).min(3)).map(|s| (s as u64, frame(perm2[s]))).collect();
+                                let res = t.submit_batch(&batch);
+                                for _ in 0..res.batch_size() {
+                                    let (s, v) = res.get();
+                                    results.push((s, v.iter().map(Rec::from).collect()));
+                                }
+                                k += scenes_in_batch;
+                            }
+                        }
+                        let stored = t.all_stored(false, 1);
+                        for (scene, recs) in &results {
+                            let set = perm2[*scene as usize];
+                            if recs.len() != sets2[set].len() {
+                                bad.push(format!("scene {scene}: {} records", recs.len()));
+                                continue;
+                            }
+                            for (i, r) in recs.iter().enumerate() {
+                                let share = stored.iter().find(|x| x.id == r.id).and_then(|x| x.obs0.first().and_then(|o| o.2)).map(f32::from_bits);
+                                match share {
+                                    Some(sh) if (sh as f64 - exp2[set][i]).abs() <= 1e-4 => {}
+                                    other => bad.push(format!("scene {scene} (set {set}), box {i}: the share kept with the detection is {other:?}, the uncovered fraction of the box in its frame is {}", exp2[set][i])),
+                                }
+                            }
+                        }
+                        bad
+                    });
+                    match r {
+                        Ok(bad) => {
+                            for w in bad.into_iter().take(1) {
+                                rep.violation(Violation { key: "own-area/as-stored-by-the-tracker".into(), what: w, replay: json!({"family":"shares as the visual trackers store them","tracker":kind.name(),"sets_of_scenes_0_1_2":perm,"scenes_per_batch":scenes_in_batch,"sets":sets.iter().map(|b| b.iter().map(|x| json!([x.0,x.1,x.2,x.3])).collect::<Vec<_>>()).collect::<Vec<_>>()}) });
+                            }
+                        }
+                        Err(e) => rep.violation(Violation { key: "own-area/tracker-panic".into(), what: e.chars().take(300).collect(), replay: json!({"family":"shares as the visual trackers store them","tracker":kind.name(),"sets_of_scenes_0_1_2":perm,"scenes_per_batch":scenes_in_batch}) }),
+                    }
+                }
+            }
+        }
+        evals.fetch_add(n, Ordering::Relaxed);
+        rep.extra("tracker_level_runs", json!(n));
     }
 let e = evals.load(Ordering::Relaxed);
     rep.add(e, e, e, e);
